@@ -64,6 +64,27 @@ pub fn replay(prop: &str, case: &str) -> i32 {
                 1
             }
         }
+        #[cfg(feature = "b")]
+        "C08" if get(&parts, "shared_state_seed").is_some() => {
+            let gs = match GraphSpec::decode(get(&parts, "g").unwrap_or("")) {
+                Ok(g) => g,
+                Err(e) => {
+                    println!("replay: {e}");
+                    return 2;
+                }
+            };
+            let seed: u64 = get(&parts, "shared_state_seed").and_then(|x| x.parse().ok()).unwrap_or(0);
+            let (out, made) = crate::sharedstate::shared_state_case(&gs, seed);
+            println!("calls made with one shared InterruptibilityState: {made}");
+            for v in &out {
+                println!("violated: {} {}: {}", v.prop, v.kind, v.detail);
+            }
+            if out.is_empty() {
+                0
+            } else {
+                1
+            }
+        }
         "C01" | "C02" | "C03" | "C04" | "C05" | "C06" | "C07" | "C08" | "C09" | "C10" => {
             let (Some(g), Some(r), Some(t)) = (get(&parts, "g"), get(&parts, "r"), get(&parts, "t").or(Some(""))) else {
                 println!("replay: case needs g, r, t");
